@@ -119,7 +119,12 @@ func NewGroup(paths Paths64, joinType JoinType, endTypeVal ...EndType) *Group {
 
 	group.inPaths = make(Paths64, 0, len(paths))
 	for _, path := range paths {
-		group.inPaths = append(group.inPaths, StripDuplicates(path, isGroupJoined))
+		stripped := StripDuplicates(path, isGroupJoined)
+		if len(stripped) == 0 && len(path) > 0 && endType == Joined {
+			// all points coincide: a single point, not an empty path
+			stripped = Path64{path[0]}
+		}
+		group.inPaths = append(group.inPaths, stripped)
 	}
 
 	if endType == Polygon {
